@@ -88,76 +88,92 @@ def dig (c : UInt8) : Nat := c.toNat - 48
 /-- `strStartsWith(str, prefix)` -/
 def startsWith (s pre : Bytes) : Bool := pre.isPrefixOf s
 
+/-! `botpOCRAStart` parses the suite in seven stages (the blocks of the C function, delimited by its
+`// разбор suite: …` comments).  Each stage consumes a prefix of the string and returns the rest. -/
+
+/-- prefix: `"OCRA-1:HOTP-"`, `"HBELT"`, `'-'` -/
+def pPrefix (suite : Bytes) : Option Bytes :=
+  if !startsWith suite (strB "OCRA-1:HOTP-") then none else
+  let suite := suite.drop 12
+  if !startsWith suite (strB "HBELT") then none else
+  let suite := suite.drop 5
+  if hd suite != ch '-' then none else some (suite.drop 1)
+
+/-- digit `'4'..'9'`, then `':'` -/
+def pDigit (suite : Bytes) : Option (Nat × Bytes) :=
+  if hd suite < ch '4' || hd suite > ch '9' then none else
+  let d := dig (hd suite)
+  let suite := suite.drop 1
+  if hd suite != ch ':' then none else some (d, suite.drop 1)
+
+/-- optional `"C-"` -/
+def pCtr (suite : Bytes) : Option (Nat × Bytes) :=
+  if hd suite == ch 'C' then
+    if hd (suite.drop 1) != ch '-' then none else some (8, suite.drop 2)
+  else some (0, suite)
+
+/-- `'Q'`, type `A|N|H`, two digits `04..64` -/
+def pQ (suite : Bytes) : Option (UInt8 × Nat × Bytes) :=
+  if hd suite != ch 'Q' then none else
+  let suite := suite.drop 1
+  if !(hd suite == ch 'A' || hd suite == ch 'N' || hd suite == ch 'H') then none else
+  let qt := hd suite
+  let suite := suite.drop 1
+  if !isDig (hd suite) || !isDig (hd (suite.drop 1)) then none else
+  let qMax := dig (hd suite) * 10 + dig (hd (suite.drop 1))
+  if qMax < 4 || qMax > 64 then none else some (qt, qMax, suite.drop 2)
+
+/-- optional `"-P"` + hash name -/
+def pP (suite : Bytes) : Option (Nat × Bytes) :=
+  if startsWith suite (strB "-P") then
+    let suite := suite.drop 2
+    if startsWith suite (strB "HBELT") then some (32, suite.drop 5)
+    else if startsWith suite (strB "SHA1") then some (20, suite.drop 4)
+    else if startsWith suite (strB "SHA256") then some (32, suite.drop 6)
+    else if startsWith suite (strB "SHA512") then some (64, suite.drop 6)
+    else none
+  else some (0, suite)
+
+/-- optional `"-S"` + three digits `≤ 512` -/
+def pS (suite : Bytes) : Option (Nat × Bytes) :=
+  if startsWith suite (strB "-S") then
+    let suite := suite.drop 2
+    if !isDig (hd suite) || !isDig (hd (suite.drop 1)) || !isDig (hd (suite.drop 2)) then none
+    else
+      let sLen := (dig (hd suite) * 10 + dig (hd (suite.drop 1))) * 10 + dig (hd (suite.drop 2))
+      if sLen > 512 then none else some (sLen, suite.drop 3)
+  else some (0, suite)
+
+/-- optional `"-T"` + `1..59` `S|M` or `1..48` `H`; value in seconds -/
+def pT (suite : Bytes) : Option (Nat × Bytes) :=
+  if startsWith suite (strB "-T") then
+    let suite := suite.drop 2
+    if hd suite < ch '1' || hd suite > ch '9' then none
+    else
+      let ts := dig (hd suite)
+      let suite := suite.drop 1
+      let (ts, suite) := if isDig (hd suite) then (ts * 10 + dig (hd suite), suite.drop 1) else (ts, suite)
+      let c := hd suite
+      let suite := suite.drop 1
+      if c == ch 'S' then (if ts > 59 then none else some (ts, suite))
+      else if c == ch 'M' then (if ts > 59 then none else some (ts * 60, suite))
+      else if c == ch 'H' then (if ts > 48 then none else some (ts * 3600, suite))
+      else none
+  else some (0, suite)
+
 /-- `botpOCRAStart(state, suite, key, key_len)`; `none` = FALSE -/
 def ocraStart (suite0 key : Bytes) : Option OcraSt := do
-  let st : OcraSt := {}
-  let suite := suite0
-  if !startsWith suite (strB "OCRA-1:HOTP-") then none
-  let suite := suite.drop 12
-  if !startsWith suite (strB "HBELT") then none
-  let suite := suite.drop 5
-  if hd suite != ch '-' then none
-  let suite := suite.drop 1
-  if hd suite < ch '4' || hd suite > ch '9' then none
-  let st := { st with digit := dig (hd suite) }
-  let suite := suite.drop 1
-  if hd suite != ch ':' then none
-  let suite := suite.drop 1
-  -- ctr
-  let (st, suite) ←
-    if hd suite == ch 'C' then
-      if hd (suite.drop 1) != ch '-' then none
-      else pure ({ st with ctrLen := 8 }, suite.drop 2)
-    else pure (st, suite)
-  -- q
-  if hd suite != ch 'Q' then none
-  let suite := suite.drop 1
-  if !(hd suite == ch 'A' || hd suite == ch 'N' || hd suite == ch 'H') then none
-  let st := { st with qType := hd suite }
-  let suite := suite.drop 1
-  if !isDig (hd suite) || !isDig (hd (suite.drop 1)) then none
-  let qMax := dig (hd suite) * 10 + dig (hd (suite.drop 1))
-  if qMax < 4 || qMax > 64 then none
-  let st := { st with qMax := qMax }
-  let suite := suite.drop 2
-  -- p
-  let (st, suite) ←
-    if startsWith suite (strB "-P") then
-      let suite := suite.drop 2
-      if startsWith suite (strB "HBELT") then pure ({ st with pLen := 32 }, suite.drop 5)
-      else if startsWith suite (strB "SHA1") then pure ({ st with pLen := 20 }, suite.drop 4)
-      else if startsWith suite (strB "SHA256") then pure ({ st with pLen := 32 }, suite.drop 6)
-      else if startsWith suite (strB "SHA512") then pure ({ st with pLen := 64 }, suite.drop 6)
-      else none
-    else pure (st, suite)
-  -- s
-  let (st, suite) ←
-    if startsWith suite (strB "-S") then
-      let suite := suite.drop 2
-      if !isDig (hd suite) || !isDig (hd (suite.drop 1)) || !isDig (hd (suite.drop 2)) then none
-      else
-        let sLen := (dig (hd suite) * 10 + dig (hd (suite.drop 1))) * 10 + dig (hd (suite.drop 2))
-        if sLen > 512 then none else pure ({ st with sLen := sLen }, suite.drop 3)
-    else pure (st, suite)
-  -- t
-  let (st, suite) ←
-    if startsWith suite (strB "-T") then
-      let suite := suite.drop 2
-      if hd suite < ch '1' || hd suite > ch '9' then none
-      else
-        let ts := dig (hd suite)
-        let suite := suite.drop 1
-        let (ts, suite) := if isDig (hd suite) then (ts * 10 + dig (hd suite), suite.drop 1) else (ts, suite)
-        let c := hd suite
-        let suite := suite.drop 1
-        if c == ch 'S' then (if ts > 59 then none else pure ({ st with ts := ts }, suite))
-        else if c == ch 'M' then (if ts > 59 then none else pure ({ st with ts := ts * 60 }, suite))
-        else if c == ch 'H' then (if ts > 48 then none else pure ({ st with ts := ts * 3600 }, suite))
-        else none
-    else pure (st, suite)
+  let suite ← pPrefix suite0
+  let (digit, suite) ← pDigit suite
+  let (ctrLen, suite) ← pCtr suite
+  let (qType, qMax, suite) ← pQ suite
+  let (pLen, suite) ← pP suite
+  let (sLen, suite) ← pS suite
+  let (ts, suite) ← pT suite
   if hd suite != 0 then none
   -- beltHMACStart; beltHMACStepA(suite_save, strLen(suite_save) + 1)
-  pure { st with keySt := Belt.hmacStepA (suite0 ++ [0]) (Belt.hmacStart key) }
+  pure { digit := digit, ctrLen := ctrLen, qType := qType, qMax := qMax, pLen := pLen, sLen := sLen, ts := ts,
+         keySt := Belt.hmacStepA (suite0 ++ [0]) (Belt.hmacStart key) }
 
 /-- `botpOCRAStepS(state, ctr, p, s)` -/
 def ocraStepS (ctr p s : Bytes) (st : OcraSt) : OcraSt :=
